@@ -47,7 +47,7 @@ theorem mkdirOne_frame (T : List Path) (fs0 : FS) (h0 : NextFresh fs0) (w : Worl
     · rename_i hex
       split
       · exact hf
-      · exact hf.create h0 q _ (isSome_false_none hex) (by rw [e]; exact hp.1.dropLast)
+      · exact hf.create h0 q _ (isSome_false_none hex) (by rw [e]; exact hp.1)
 
 set_option maxHeartbeats 1000000 in
 /-- **a call whose mutating arguments are covered keeps the frame** (no symbolic links, thread root "/");
@@ -82,7 +82,7 @@ theorem step_frame (T : List Path) (fs0 : FS) (h0 : NextFresh fs0) (w : World) (
       · rename_i hex
         split
         · exact hf
-        · exact hf.create h0 q _ (isSome_false_none hex) (by rw [e]; exact hs.1.dropLast)
+        · exact hf.create h0 q _ (isSome_false_none hex) (by rw [e]; exact hs.1)
   | mknod p k perm rdev =>
     simp only [step]
     split
@@ -94,7 +94,7 @@ theorem step_frame (T : List Path) (fs0 : FS) (h0 : NextFresh fs0) (w : World) (
       · rename_i hex
         split
         · exact hf
-        · exact hf.create h0 q _ (isSome_false_none hex) (by rw [e]; exact hs.1.dropLast)
+        · exact hf.create h0 q _ (isSome_false_none hex) (by rw [e]; exact hs.1)
   | createWrite p perm data =>
     simp only [step]
     split
@@ -115,7 +115,7 @@ theorem step_frame (T : List Path) (fs0 : FS) (h0 : NextFresh fs0) (w : World) (
       · rename_i hnone
         split
         · exact hf
-        · exact hf.create h0 q _ hnone (by rw [e]; exact cov_dropLast hs.1)
+        · exact hf.create h0 q _ hnone (by rw [e]; exact Or.inl hs.1)
   | link old new =>
     simp only [step]
     split
@@ -135,7 +135,7 @@ theorem step_frame (T : List Path) (fs0 : FS) (h0 : NextFresh fs0) (w : World) (
             split
             · exact hf
             · exact hf.addName qn qo i (isSome_false_none hex) hi (by rw [eo]; exact hs.1.1)
-                (by rw [en]; exact hs.2.1.dropLast)
+                (by rw [en]; exact hs.2.1)
   | chown p uid gid follow =>
     simp only [step]
     split
